@@ -7,12 +7,19 @@ def main(argv):
     if len(argv) >= 2 and argv[0] == "--replay":
         obj = json.load(open(argv[1]))
         prop = obj["property"]
+        print(json.dumps({k: obj[k] for k in ("property", "kind", "summary", "seed", "case_index", "first_diff") if k in obj}, indent=1))
+        # re-run exactly that case of that property on the current working tree
+        os.environ["VERIF_SEED"] = str(obj.get("seed", 0))
+        if obj.get("case_index") is not None:
+            os.environ["VERIF_ONLY_INDEX"] = str(obj["case_index"])
+        os.environ["VERIF_OUT"] = os.environ.get("VERIF_OUT", "/tmp/verif_replay_out")
+        importlib.reload(lib)
+        rep = lib.Report(prop, obj.get("tier", "quick"), lib.seed_of())
         mod = importlib.import_module(f"harness.props.{prop.lower()}")
-        if hasattr(mod, "replay"):
-            return mod.replay(obj)
-        print(json.dumps({k: obj[k] for k in ("property", "kind", "summary") if k in obj}, indent=1))
-        print("(no property-specific replay routine; the file holds the full case and both observations)")
-        return 0
+        mod.run(rep, obj.get("tier", "quick"))
+        rc = rep.finish()
+        print("REPLAY: " + ("the violation reproduces on the current tree" if rc == 1 else "no violation on the current tree"))
+        return rc
     if not argv:
         print(__doc__)
         return 2
